@@ -225,6 +225,11 @@ func roleOf(p string) (role string, rest []string) {
 // written the same way: their elements hold no separator and no '\\' (an
 // escape on one type, a separator on the other), Join leaves them as they are.
 func (s *side) path(p string) string {
+	tag, p := splitSpell(p)
+	if tag != "" {
+		return s.spell(tag, s.path(p))
+	}
+
 	if p == "" {
 		return ""
 	}
@@ -248,11 +253,108 @@ func (s *side) path(p string) string {
 	return s.v.Join(comps...)
 }
 
+// Spellings. General lesson: a portable path is a NAME, and on one OS type a
+// name has several legitimate spellings; the path builder of the library
+// (Join, FromUnixPath) produces exactly one of them, so histories written with
+// the builder alone never reach the code that recognises the others. On the
+// Windows type both '\\' and '/' are separators and the volume may be left out
+// (a path starting with a separator is rooted on the volume of the current
+// directory), which gives for "/a/b":
+//
+//	`C:\a\b`   (no tag)  what Join under the root gives
+//	`C:/a/b`   "f:"      forward slashes
+//	`\a\b`     "r:"      rooted, volume of the current directory
+//	`/a/b`     "rf:"     rooted with forward slashes: the POSIX spelling itself
+//
+// and for the relative "a/b": `a\b` and, "f:", `a/b`. A spelled operand is
+// written "<tag>:<portable path>" in the alphabet; the tag applies to the
+// Windows-typed side only (the Linux type has the one spelling, its twin keeps
+// "/a/b"), the oracle is unchanged: the call has to do what the untagged call
+// does. Where the volume is left out the meaning depends on the current
+// directory, which is why the dimension is crossed with Chdir (itself spelled).
+// A rooted spelling is only used while the current directory is on the volume
+// of the path (always, here: an instance of part (C) lives on one volume);
+// otherwise spell keeps the volume.
+var (
+	absSpellings = []string{"f", "r", "rf"}
+	relSpellings = []string{"f"}
+)
+
+// splitSpell splits "<tag>:<portable path>" ("" when the operand has no tag).
+func splitSpell(p string) (tag, rest string) {
+	for _, t := range absSpellings {
+		if strings.HasPrefix(p, t+":") {
+			return t, p[len(t)+1:]
+		}
+	}
+
+	return "", p
+}
+
+// plain is the portable path without its spelling tag.
+func plain(p string) string {
+	_, rest := splitSpell(p)
+
+	return rest
+}
+
+// plainCall is c with the spelling tags removed (classification, Linux side).
+func plainCall(c fsx.Call) fsx.Call {
+	c.A, c.B = plain(c.A), plain(c.B)
+
+	return c
+}
+
+// spellingOf names the spellings of the operands of c ("" when none is tagged).
+func spellingOf(c fsx.Call) string {
+	ta, _ := splitSpell(c.A)
+	tb, _ := splitSpell(c.B)
+
+	switch {
+	case ta == "" && tb == "":
+		return ""
+	case c.B == "" || c.Op == "CreateTemp" || c.Op == "MkdirTemp" || c.Op == "Symlink":
+		return ta + tb
+	}
+
+	return "A=" + ta + ",B=" + tb
+}
+
+// spell rewrites the concrete path p of this instance in the spelling tag
+// (Windows type only).
+func (s *side) spell(tag, p string) string {
+	if !s.win || p == "" {
+		return p
+	}
+
+	vol := avfs.VolumeName(s.v, p)
+
+	if strings.Contains(tag, "r") && vol != "" && len(p) > len(vol) && avfs.IsPathSeparator(s.v, p[len(vol)]) {
+		var cwd string
+
+		_, _ = fsx.Guard(func() { cwd, _ = s.v.Getwd() })
+
+		if strings.EqualFold(avfs.VolumeName(s.v, cwd), vol) {
+			p = p[len(vol):]
+		}
+	}
+
+	if strings.Contains(tag, "f") {
+		p = strings.ReplaceAll(p, `\`, "/")
+	}
+
+	return p
+}
+
 // concrete turns a portable call into the call for this instance.
 func (s *side) concrete(c fsx.Call) fsx.Call {
 	switch c.Op {
 	case "CreateTemp", "MkdirTemp":
 		c.A = s.path(c.A) // B is the pattern
+	case "Symlink":
+		// the target is content, not an operand resolved by the call: never spelled
+		c.A = s.path(plain(c.A))
+		c.B = s.path(c.B)
 	default:
 		c.A = s.path(c.A)
 		c.B = s.path(c.B)
@@ -272,7 +374,7 @@ type result struct {
 // random sequence ("0","1","0",...) so that both sides see the same temp names
 // and collisions are forced. Panics and decided deadlocks are outcomes.
 func (s *side) do(c fsx.Call) (fsx.Call, result) {
-	s.hideSys = s.cfg.sysDirs && !isRolePath(c.A)
+	s.hideSys = s.cfg.sysDirs && !isRolePath(plain(c.A))
 	defer func() { s.hideSys = false }()
 
 	return s.doConcrete(s.concrete(c))
@@ -287,7 +389,12 @@ func (s *side) hidden(p string) bool {
 
 	if !s.v.IsAbs(p) {
 		cwd, _ := s.v.Getwd()
-		p = s.v.Join(cwd, p)
+
+		if p != "" && avfs.IsPathSeparator(s.v, p[0]) {
+			p = avfs.VolumeName(s.v, cwd) + p // rooted on the volume of the current directory
+		} else {
+			p = s.v.Join(cwd, p)
+		}
 	}
 
 	top := strings.TrimPrefix(s.plainNorm(p), "/")
